@@ -299,6 +299,14 @@ Proof. unfold bytes_delete. induction s as [|c s IH]; cbn; [lia|]. destruct (neg
 
 Definition nontext (b : list N) : list N := bytes_delete TEXT_CHARS b.
 
+Lemma ratio_leb (a b : nat) : (1 <= b <= 512)%nat -> (a <= b)%nat ->
+  PrimFloat.leb (PrimFloat.div (fl (N.of_nat a)) (fl (N.of_nat b))) 0x1.3333333333333p-2%float
+  = (10 * N.of_nat a <=? 3 * N.of_nat b).
+Proof.
+  intros Hb Ha. pose proof (ratio_ok_all a b Hb Ha) as H. unfold ratio_ok in H.
+  apply eqb_prop in H. exact H.
+Qed.
+
 Lemma istextblock_spec b : (length b <= 512)%nat ->
   istextblock b =
   match b with
@@ -306,11 +314,12 @@ Lemma istextblock_spec b : (length b <= 512)%nat ->
   | _ => negb (bytes_contains [0] b) && (10 * len (nontext b) <=? 3 * len b)
   end.
 Proof.
-  intros Hl. unfold istextblock. destruct b as [|c b]; [reflexivity|].
-  cbn [truthy_list is_nil negb]. destruct (bytes_contains [0] (c :: b)); [reflexivity|].
-  cbn [negb andb]. fold (nontext (c :: b)).
-  pose proof (ratio_ok_all (length (nontext (c :: b))) (length (c :: b))) as H.
-  unfold ratio_ok, fl in H. unfold len.
-  pose proof (bytes_delete_length TEXT_CHARS (c :: b)) as Hd. fold (nontext (c :: b)) in Hd.
-  apply eqb_prop in H; [exact H| cbn [length] in *; lia | exact Hd].
+  intros Hl. unfold istextblock, nontext. destruct b as [|c b]; [reflexivity|].
+  cbn [truthy_list is_nil negb].
+  assert (Hb : (1 <= length (c :: b) <= 512)%nat) by (split; [cbn [length]; lia|exact Hl]).
+  pose proof (bytes_delete_length TEXT_CHARS (c :: b)) as Hd.
+  revert Hb Hd. generalize (bytes_delete TEXT_CHARS (c :: b)) as nt.
+  generalize (c :: b) as blk. intros blk nt Hb Hd.
+  destruct (bytes_contains [0] blk); [reflexivity|].
+  cbn [negb andb]. unfold len. exact (ratio_leb (length nt) (length blk) Hb Hd).
 Qed.
